@@ -50,7 +50,8 @@ func (c *Conversation) receiveUnit(m ValidMessage, forgetFragments bool) (plain 
 }
 
 func (c *Conversation) receiveWithoutOTR(message ValidMessage) (MessagePlaintext, []ValidMessage, error) {
-	return MessagePlaintext(message), nil, nil
+	// message is wiped when receiveUnit returns, so hand out a copy
+	return MessagePlaintext(makeCopy(message)), nil, nil
 }
 
 func withoutPotentialSpaceStart(msg []byte) []byte {
